@@ -347,6 +347,8 @@ void register_all()
     reg_layout<Lay::strided, 4>();
     W<Lay::morton_bmi2, Ip::lin, true, 4>::reg();
     W<Lay::strided, Ip::lin, false, 5>::reg();
+    W<Lay::morton_port, Ip::lin, false, 4>::reg();
+    W<Lay::morton_port, Ip::none, false, 4>::reg();
 }
 }   // namespace
 VF_MAIN(register_all)
